@@ -1,5 +1,5 @@
 #!/bin/bash
-# re-evaluate every kept seeded change against the current machinery (scratch copies; 4 at a time) -> seeded/RESULTS.jsonl
+# re-evaluate every kept seeded change against the current machinery (scratch copies; SEED_PAR at a time, default 4) -> seeded/RESULTS.jsonl
 cd /verif
 declare -A EXTRA=( [C10-m2]="C16" [C11-m1]="C02" [C11-m2]="C03 C12" [C12-m1]="C01 C03" [C12-m2]="C03" [C17-m1]="C06" [C05-m1]="" [C10-m6]="C14" [C05-m6]="C04" )
 run() { s=$1; p=${s%-*}; src=/verif/seeded/$s; SEED_SCRATCH=1 python3 tools/seed_eval.py $src $s $p ${EXTRA[$s]} 2>&1 | python3 -c "
@@ -9,7 +9,7 @@ try:
     j=json.loads(t[t.index('{'):]); print(json.dumps({'seed':j['seed'],'demo_clean':j['demo_clean_rc'],'demo_patched':j.get('demo_patched_rc'),'checks':{k:{'rc':v['rc'],'violations':v['violations'],'first':(v['first'][:1] or [''])[0][:200]} for k,v in j['checks'].items()}}))
 except Exception as e: print(json.dumps({'seed':'$s','error':t[-300:]}))"; }
 for s in $(ls seeded | grep -E "^C[0-9]+-m[0-9]+$" | sort); do
-  while [ $(jobs -r | wc -l) -ge 4 ]; do sleep 1; done
+  while [ $(jobs -r | wc -l) -ge ${SEED_PAR:-4} ]; do sleep 1; done
   run $s >> /tmp/seed_results.jsonl &
 done; wait
 sort /tmp/seed_results.jsonl > seeded/RESULTS.jsonl; rm -f /tmp/seed_results.jsonl; wc -l seeded/RESULTS.jsonl
